@@ -37,6 +37,8 @@ def spell_dur(rng, lang, parts):
 
 
 def spell_month_date(rng, lang, d, with_year, which):
+    if which == 'numeric':
+        return '%d/%d/%d' % (d.day, d.month, d.year)          # day/month/year in digits is a date spelling of every language
     lm, sm = lex.months(lang)
     table = lm if which == 'long' else sm
     names = [n for n, k in table.items() if k == d.month]
@@ -119,7 +121,7 @@ def run_shard(ctx):
                     cls, oracle = 'duration-sum', ('duration', s1 + s2 if op == '+' else s1 - s2)
                 elif k < 0.62:
                     d = gen_date(rng, today)
-                    which = rng.choice(['long', 'short'])
+                    which = rng.choice(['long', 'short', 'numeric'])
                     with_year = d.year != today.year or rng.random() < 0.5
                     unit = rng.choice(['day', 'week', 'month', 'year'])
                     n = {'day': rng.choice([1, 5, 10, 20, 29]), 'week': rng.randint(1, 4), 'month': rng.randint(1, 11), 'year': rng.choice([1, 2, 5])}[unit]
@@ -142,7 +144,7 @@ def run_shard(ctx):
                     cls, oracle = 'date-arith', ('date', want)
                 elif k < 0.8:
                     d = gen_date(rng, today)
-                    which = rng.choice(['long', 'short'])
+                    which = rng.choice(['long', 'short', 'numeric'])
                     with_year = d.year != today.year or rng.random() < 0.5
                     for l in langs:
                         texts[l] = spell_month_date(rng, l, d, with_year, which)
@@ -184,7 +186,7 @@ def run_shard(ctx):
                     text = rng.choice(['%s %s' % (x, a), '%s %s %s' % (x, a, b), '%s %s + %s %s' % (x, a, y, b), '%s %s * %s' % (x, a, y), '$%s - %s %s' % (y, y, b)])
                     cls = 'money'
                 elif k < 0.8:
-                    x, p = rng.choice(['200', '19,9', '1000']), rng.choice(['10', '12,5', '150'])
+                    x, p = rng.choice(['200', '19,9', '1000', '$200', '200 try', '35 eur', '1k usd']), rng.choice(['10', '12,5', '150'])
                     text = rng.choice(['%s + %s%%' % (x, p), '%s - %%%s' % (x, p), '%s%% of %s' % (p, x), '%s on %s%%' % (x, p), '%s%% off %s' % (p, x),
                                        '%s is what %% of %s' % (p, x), '%s is %s%% of what' % (x, p)])
                     cls = 'percent'
